@@ -109,6 +109,7 @@ def corruptions():
         ("callback-dropped", "ApiTrace", lambda d: d.get("cb"), drop_cb),
         ("callback-duplicated", "ApiTrace", lambda d: d.get("cb"), dup_cb),
         ("callback-size", "ApiTrace", lambda d: d.get("cb"), cb_size),
+        ("claim-asked-again", "ApiTrace", lambda d: d["e"] == "Complete" and "lastnull" in d, lambda d: d.__setitem__("lastnull", 1 - d["lastnull"])),
         ("app-buffer-flag", "ApiTrace", lambda d: d["e"] == "Recv", setf("app_ok", 0)),
         ("leak-count", "ApiTrace", lambda d: d["e"] == "Release", setf("leak", 1)),
         ("foreign-free", "ApiTrace", lambda d: d["e"] == "Release", setf("ff", 1)),
